@@ -645,8 +645,27 @@ func generate(r *core.RNG, mode string) *Prog {
 	for _, f := range p.Funcs {
 		f.Body = flattenSeq(f.Body)
 	}
+	// every other program spreads its declarations over up to four files per package whose names sort before,
+	// between and after the main file, so that calls stand in earlier AND later files than the declaration they
+	// name; some functions are also called outside every body (variable initialiser / init) in a random file
+	if r.Chance(50) || (mode == "literal" && r.Chance(50)) {
+		spread(r, p)
+	}
 	p.Calls = callsOf(p)
+	p.normalise()
 	return p
+}
+
+func spread(r *core.RNG, p *Prog) {
+	for i, f := range p.Funcs {
+		if f.IsLit || f.Iface || f.Prelude {
+			continue
+		}
+		f.File = r.Intn(nFiles)
+		if !f.Method && r.Chance(35) {
+			p.PkgCalls = append(p.PkgCalls, PkgCall{Pkg: f.Pkg, File: r.Intn(nFiles), F: i})
+		}
+	}
 }
 
 // callsOf: every declared function through its own package; functions of b also through a.
